@@ -31,11 +31,65 @@ type loadRec struct {
 
 // loadSpec is what the loader of one Take does.
 type loadSpec struct {
-	errKind   int // 0 succeeds; 1 a fresh error; 2 a bare sentinel (context.DeadlineExceeded); 3 a wrapped sentinel (context.Canceled); 4 an error of a struct type; 5 the package's own collection.ErrArgument
+	// errKind: 0 succeeds; 1 a fresh error; 2 a bare sentinel (context.DeadlineExceeded); 3 a wrapped sentinel (context.Canceled);
+	// 4 an error of a struct type; 5 the package's own collection.ErrArgument; 6 bare context.Canceled; 7 context.DeadlineExceeded
+	// wrapped with %w; 8 errors.Join(context.Canceled, a fresh error); 9 errors.Join(a fresh error, context.DeadlineExceeded
+	// wrapped with %w); 10 an error of a struct type whose Unwrap gives context.Canceled
+	errKind   int
 	panicKind int // 0 none; 1 a string; 2 an error value; 3 a runtime error (write to a nil map); 4 a struct value
 	yields    int
 	sleep     time.Duration
 	nest      *nestSpec // an operation the loader itself issues on a cache while it runs (dependent lookups, layered caches)
+	// gap: the calling goroutine is preempted for this long (virtual time) between Take's first lookup and
+	// its entry into the cache's barrier (flightSpy.enter; 0: only the yield)
+	gap time.Duration
+}
+
+// ctxErrKinds: the loader error identities that are (or wrap, or join) a context error: what a loader
+// reports whose own caller gave up or ran out of time.
+var ctxErrKinds = []int{2, 3, 6, 7, 8, 9, 10}
+
+func isCtxErrKind(k int) bool {
+	for _, x := range ctxErrKinds {
+		if x == k {
+			return true
+		}
+	}
+	return false
+}
+
+// loadCtxFailure is an error of a struct type that unwraps to a context error.
+type loadCtxFailure struct {
+	n     int64
+	cause error
+}
+
+func (e loadCtxFailure) Error() string { return fmt.Sprintf("load-gave-up-%d: %v", e.n, e.cause) }
+func (e loadCtxFailure) Unwrap() error { return e.cause }
+
+// loaderError builds the error a failing loader returns (n: the logical instant of the loader start).
+func loaderError(kind, k int, n int64) error {
+	switch kind {
+	case 2:
+		return context.DeadlineExceeded
+	case 3:
+		return fmt.Errorf("load k%d #%d: %w", k, n, context.Canceled)
+	case 4:
+		return loadFailure{n}
+	case 5:
+		return collection.ErrArgument
+	case 6:
+		return context.Canceled
+	case 7:
+		return fmt.Errorf("load k%d #%d: %w", k, n, context.DeadlineExceeded)
+	case 8:
+		return errors.Join(context.Canceled, fmt.Errorf("load-error-%d", n))
+	case 9:
+		return errors.Join(fmt.Errorf("load-error-%d", n), fmt.Errorf("load k%d: %w", k, context.DeadlineExceeded))
+	case 10:
+		return loadCtxFailure{n, context.Canceled}
+	}
+	return fmt.Errorf("load-error-%d", n)
 }
 
 type nestSpec struct {
@@ -54,6 +108,9 @@ var errLoadPanic = errors.New("load-panic-error")
 
 func (sp loadSpec) String() string {
 	s := fmt.Sprintf("{err:%d panic:%d yields:%d sleep:%v", sp.errKind, sp.panicKind, sp.yields, sp.sleep)
+	if sp.gap > 0 {
+		s += fmt.Sprintf(" preempted-before-barrier:%v", sp.gap)
+	}
 	if sp.nest != nil {
 		s += fmt.Sprintf(" nested:%+v", *sp.nest)
 	}
@@ -64,10 +121,13 @@ func (sp loadSpec) String() string {
 func drawLoad(t *simrt.Tape, nKeys, nCaches int) loadSpec {
 	var sp loadSpec
 	if t.Chance(1, 5) {
-		if x := t.Intn(9); x < 5 {
+		switch x := t.Intn(14); {
+		case x < 5:
 			sp.errKind = x + 1
-		} else {
+		case x < 9:
 			sp.panicKind = x - 4
+		default:
+			sp.errKind = x - 3 // 6..10: further context error identities
 		}
 	}
 	if t.Chance(1, 6) {
@@ -85,6 +145,7 @@ type takeRec struct {
 	flight  int64
 	tFlight time.Duration
 	flights int
+	gap     time.Duration // loadSpec.gap
 	val     int
 	err     error
 	loads   []*loadRec
@@ -225,6 +286,10 @@ func (f *flightSpy) enter() {
 	if tr == nil {
 		return
 	}
+	if tr.flights == 0 && tr.gap > 0 {
+		w.r.Probe("cache-take-preempted-between-lookup-and-barrier")
+		w.r.Sleep(tr.gap)
+	}
 	tr.flights++
 	if tr.flights == 1 {
 		tr.flight = w.tick()
@@ -350,7 +415,7 @@ func (w *cacheWorld) length(client int) {
 }
 
 func (w *cacheWorld) take(client, k int, sp loadSpec) {
-	tr := &takeRec{client: client, key: k, tCall: w.r.Elapsed()}
+	tr := &takeRec{client: client, key: k, tCall: w.r.Elapsed(), gap: sp.gap}
 	w.takes = append(w.takes, tr)
 	tr.call = w.tick()
 	w.r.Ev("take", int64(client), int64(k), int64(sp.errKind), int64(sp.panicKind))
@@ -390,18 +455,7 @@ func (w *cacheWorld) take(client, k int, sp loadSpec) {
 			case sp.panicKind > 0:
 				l.panicked = true
 			case sp.errKind > 0:
-				switch sp.errKind {
-				case 2:
-					l.err = context.DeadlineExceeded
-				case 3:
-					l.err = fmt.Errorf("load k%d #%d: %w", k, l.start, context.Canceled)
-				case 4:
-					l.err = loadFailure{l.start}
-				case 5:
-					l.err = collection.ErrArgument
-				default:
-					l.err = fmt.Errorf("load-error-%d", l.start)
-				}
+				l.err = loaderError(sp.errKind, k, l.start)
 			default:
 				l.val = w.newVal()
 			}
@@ -426,6 +480,12 @@ func (w *cacheWorld) take(client, k int, sp loadSpec) {
 			if l.err != nil {
 				if sp.errKind > 1 {
 					w.r.Probe("cache-loader-error-sentinel-wrapped-or-typed")
+				}
+				if isCtxErrKind(sp.errKind) {
+					w.r.Probe("cache-loader-error-context-identity")
+					if sp.errKind >= 8 {
+						w.r.Probe("cache-loader-error-context-joined-or-typed")
+					}
 				}
 				return nil, l.err
 			}
@@ -860,6 +920,127 @@ type cachePlanOp struct {
 	load      loadSpec      // kind 3
 }
 
+// flightScene is a scripted opening of a concurrent cache workload: the first operation of client 0
+// is a Take of the scene key whose loader is slow (sleeps) and, mostly, FAILS - with a plain error or
+// with one of the context error identities (what a loader reports whose own caller gave up) -, and
+// the first operation of every other client goes to the same key while that call is (probably) still
+// in flight: another Take (which then waits behind it in the cache's barrier, sometimes after having
+// been preempted between its first lookup and the barrier), a Set, a Del or a Get, issued at once or
+// after a fraction of the loader's duration.  Everything after the first operations is the ordinary plan.
+type flightScene struct {
+	key, cache int
+	sleep      time.Duration // how long the leading loader takes
+}
+
+func drawFlightScene(t *simrt.Tape, maxSleepMs, key, cache int) *flightScene {
+	return &flightScene{key: key, cache: cache, sleep: time.Duration(t.Range(1, maxSleepMs)) * time.Millisecond}
+}
+
+// first draws the first operation of client c.
+func (fs *flightScene) first(t *simrt.Tape, c, nKeys, nCaches int) cachePlanOp {
+	o := cachePlanOp{key: fs.key, cache: fs.cache}
+	if c == 0 {
+		o.kind = 3
+		o.load = loadSpec{yields: t.Intn(4), sleep: fs.sleep}
+		switch x := t.Intn(10); {
+		case x == 0:
+		case x == 1:
+			o.load.errKind = 1
+		case x == 2:
+			o.load.errKind = 4
+		default:
+			o.load.errKind = ctxErrKinds[x-3]
+		}
+		return o
+	}
+	switch t.Intn(3) {
+	case 1:
+		o.think = fs.sleep * time.Duration(t.Range(1, 100)) / 100
+	case 2:
+		o.think = time.Duration(t.Range(1, 5)) * time.Millisecond
+	}
+	switch v := t.Intn(10); {
+	case v < 5:
+		o.kind = 3
+		o.load = drawLoad(t, nKeys, nCaches)
+		o.load.yields = t.Intn(3)
+		switch t.Intn(3) {
+		case 1:
+			o.load.gap = fs.sleep * time.Duration(t.Range(1, 100)) / 100
+		case 2:
+			o.load.gap = time.Duration(t.Range(1, 5)) * time.Millisecond
+		}
+	case v < 8:
+		o.kind = 1
+	case v < 9:
+		o.kind = 2
+	default:
+		o.kind = 0
+	}
+	return o
+}
+
+// flightProbes reports (coverage only) which flight situations the finished run contained.
+func (w *cacheWorld) flightProbes() {
+	r := w.r
+	for _, a := range w.takes {
+		if len(a.loads) != 1 {
+			continue
+		}
+		l := a.loads[0]
+		for _, b := range w.takes {
+			if b == a || b.key != a.key || b.flight == 0 || !(l.start < b.flight && b.flight < l.end) {
+				continue
+			}
+			// b entered the barrier while a's loader was running
+			r.Probe("cache-take-entered-barrier-while-loader-of-same-key-running")
+			stored, storedBefore, removed := false, false, false
+			for _, o := range w.ops {
+				if o.in.key != a.key || o.client == b.client {
+					continue
+				}
+				switch o.in.kind {
+				case cSet:
+					if o.call > l.start && o.ret < l.end {
+						stored = true
+					}
+					if o.call > b.call && o.ret < b.flight {
+						storedBefore = true
+					}
+				case cDel:
+					if o.call > l.start && o.ret < l.end {
+						removed = true
+					}
+				}
+			}
+			if stored {
+				r.Probe("cache-flight-with-waiter-key-set-meanwhile")
+			}
+			if removed {
+				r.Probe("cache-flight-with-waiter-key-deleted-meanwhile")
+			}
+			if l.err == nil {
+				continue
+			}
+			r.Probe("cache-flight-with-waiter-loader-failed")
+			ctx := errors.Is(l.err, context.Canceled) || errors.Is(l.err, context.DeadlineExceeded)
+			if !ctx {
+				continue
+			}
+			r.Probe("cache-flight-with-waiter-loader-failed-with-context-error")
+			if len(b.loads) == 0 && b.err != nil && errors.Is(b.err, l.err) {
+				r.Probe("cache-waiter-got-the-shared-context-error")
+			}
+			if stored {
+				r.Probe("cache-flight-failed-with-context-error-key-set-meanwhile")
+			}
+			if storedBefore {
+				r.Probe("cache-waiter-behind-failing-flight-key-set-between-its-lookup-and-barrier-entry")
+			}
+		}
+	}
+}
+
 func runCacheClients(r *simrt.Run, worlds []*cacheWorld, plans [][]cachePlanOp) bool {
 	var tasks []*simrt.Task
 	for c := range plans {
@@ -993,6 +1174,7 @@ func judgeConcurrent(r *simrt.Run, w *cacheWorld, who string) bool {
 		return false
 	}
 	r.Probe("oracle")
+	w.flightProbes()
 	switch checkCacheHistory(limit, 0, ops) {
 	case linUnknown:
 		r.Probe("porcupine-unknown")
@@ -1057,9 +1239,18 @@ func cacheConcurrent(r *simrt.Run, tier string) {
 	nKeys := t.Range(1, 3)
 	limit := t.Intn(4)
 	expire := []time.Duration{10 * time.Second, 5 * time.Second, 30 * time.Second, 60 * time.Second}[t.Intn(4)]
+	var scene *flightScene
+	if t.Chance(1, 3) {
+		scene = drawFlightScene(t, 1500, 0, 0)
+		r.Probe("cache-flight-scene")
+	}
 	plans := make([][]cachePlanOp, clients)
 	for c := range plans {
 		for j := 0; j < perClient; j++ {
+			if scene != nil && j == 0 {
+				plans[c] = append(plans[c], scene.first(t, c, nKeys, 1))
+				continue
+			}
 			o := cachePlanOp{key: t.Intn(nKeys)}
 			switch t.Intn(8) {
 			case 5:
@@ -1082,6 +1273,9 @@ func cacheConcurrent(r *simrt.Run, tier string) {
 				o.load.yields = t.Intn(3)
 				if t.Chance(1, 3) {
 					o.load.sleep = time.Duration(t.Range(1, 1500)) * time.Millisecond
+				}
+				if t.Chance(1, 6) {
+					o.load.gap = time.Duration(t.Range(1, 50)) * time.Millisecond
 				}
 			default:
 				o.kind = 4
@@ -1138,9 +1332,18 @@ func cacheMulti(r *simrt.Run, tier string) {
 	if storm {
 		stormAcross = t.Bool()
 	}
+	var scene *flightScene
+	if !storm && t.Chance(1, 3) {
+		scene = drawFlightScene(t, 1500, 0, t.Intn(nCaches))
+		r.Probe("cache-flight-scene")
+	}
 	plans := make([][]cachePlanOp, clients)
 	for c := range plans {
 		for j := 0; j < perClient; j++ {
+			if scene != nil && j == 0 {
+				plans[c] = append(plans[c], scene.first(t, c, nKeys, nCaches))
+				continue
+			}
 			o := cachePlanOp{key: t.Intn(nKeys), cache: t.Intn(nCaches)}
 			if storm && j == 0 {
 				o = cachePlanOp{kind: 3, load: loadSpec{yields: t.Intn(4)}}
@@ -1171,6 +1374,9 @@ func cacheMulti(r *simrt.Run, tier string) {
 				if t.Chance(1, 2) {
 					o.load.sleep = time.Duration(t.Range(1, 1500)) * time.Millisecond
 				}
+				if t.Chance(1, 6) {
+					o.load.gap = time.Duration(t.Range(1, 50)) * time.Millisecond
+				}
 			case v < 13:
 				o.kind = 0
 			case v < 16:
@@ -1187,7 +1393,7 @@ func cacheMulti(r *simrt.Run, tier string) {
 		}
 	}
 	if r.Tracing() {
-		r.Logf("cache(multi) caches=%d named=%v storm=%v clients=%d keys=%d limit=%d expire=%v plans=%+v", nCaches, named, storm, clients, nKeys, limit, expire, plans)
+		r.Logf("cache(multi) caches=%d named=%v storm=%v flight-scene=%v clients=%d keys=%d limit=%d expire=%v plans=%+v", nCaches, named, storm, scene != nil, clients, nKeys, limit, expire, plans)
 	}
 	r.Sample(map[string]any{"component": "Cache(several caches, concurrent)", "caches": nCaches, "distinct_names": named, "clients": clients, "keys": nKeys, "limit": limit,
 		"expire": expire.String(), "ops_per_client": perClient, "first_client_plan": fmt.Sprintf("%+v", plans[0])})
